@@ -1,5 +1,9 @@
+pub mod alloc_count;
 pub mod common;
 pub mod engine;
 pub mod f2;
 pub mod props;
 pub mod rogue_noise;
+
+#[global_allocator]
+static GLOBAL: alloc_count::Counting = alloc_count::Counting;
